@@ -19,6 +19,7 @@ import (
 	"context"
 	"encoding/json"
 	"fmt"
+	"math/rand"
 	"reflect"
 	"sort"
 	"strings"
@@ -37,6 +38,7 @@ type c20TreeArgs struct {
 	Env   map[string]string `json:"env,omitempty"`
 	Which string            `json:"which,omitempty"`
 	PName string            `json:"pname,omitempty"`
+	Opts  *loadOpts         `json:"opts,omitempty"`
 }
 
 func c20Dict(raw json.RawMessage) map[string]any {
@@ -447,7 +449,7 @@ func realFlow(raw json.RawMessage) any {
 	var a c20TreeArgs
 	json.Unmarshal(raw, &a)
 	d := c20Dict(a.Dict)
-	p, err := c20Load([]map[string]any{d}, a.Env, a.PName, nil)
+	p, err := c20Load([]map[string]any{d}, a.Env, a.PName, a.Opts.apply)
 	if err != nil {
 		if strings.HasPrefix(err.Error(), "harness:") {
 			return map[string]any{"bad": err.Error()}
@@ -505,4 +507,122 @@ func renderProject(p *types.Project, asJSON, content bool) ([]byte, error) {
 	default:
 		return p.MarshalYAML()
 	}
+}
+
+// ---------------------------------------------------------------- round 6: loader options
+
+// loadOpts: the loader options that change the dynamic type or the shape of what the stages after them see.
+// The zero value (or nil) is the default load.
+type loadOpts struct {
+	KnownExt          []string `json:"known_ext,omitempty"` // x-* keys the caller registers a Go type for (Options.KnownExtensions)
+	SkipInterpolation bool     `json:"skip_interpolation,omitempty"`
+	SkipNormalization bool     `json:"skip_normalization,omitempty"`
+	SkipValidation    bool     `json:"skip_validation,omitempty"`
+	SkipConsistency   bool     `json:"skip_consistency,omitempty"`
+	NoResolvePaths    bool     `json:"no_resolve_paths,omitempty"`
+	Profiles          []string `json:"profiles,omitempty"`
+}
+
+type knownMagic struct {
+	Foo string
+	N   int `mapstructure:"n"`
+}
+
+// knownExtType: the Go value registered for a known extension key.  Keys the generated models use get the type of
+// the value they carry there (so the load succeeds); any other key gets a struct.
+func knownExtType(name string) any {
+	switch name {
+	case "x-note", "x-from-override":
+		return ""
+	case "x-nested":
+		return map[string]any{}
+	}
+	return knownMagic{}
+}
+
+func (o *loadOpts) apply(lo *loader.Options) {
+	if o == nil {
+		return
+	}
+	if len(o.KnownExt) > 0 {
+		lo.KnownExtensions = map[string]any{}
+		for _, n := range o.KnownExt {
+			lo.KnownExtensions[n] = knownExtType(n)
+		}
+	}
+	lo.SkipInterpolation = lo.SkipInterpolation || o.SkipInterpolation
+	lo.SkipNormalization = lo.SkipNormalization || o.SkipNormalization
+	lo.SkipValidation = lo.SkipValidation || o.SkipValidation
+	lo.SkipConsistencyCheck = lo.SkipConsistencyCheck || o.SkipConsistency
+	if o.NoResolvePaths {
+		lo.ResolvePaths = false
+	}
+	if len(o.Profiles) > 0 {
+		lo.Profiles = o.Profiles
+	}
+}
+
+func (o *loadOpts) label() string {
+	if o == nil {
+		return "default"
+	}
+	var l []string
+	if len(o.KnownExt) > 0 {
+		l = append(l, "known")
+	}
+	for _, f := range []struct {
+		on bool
+		n  string
+	}{{o.SkipInterpolation, "nointerp"}, {o.SkipNormalization, "nonorm"}, {o.SkipValidation, "noval"}, {o.SkipConsistency, "nocons"}, {o.NoResolvePaths, "nopaths"}, {len(o.Profiles) > 0, "profiles"}} {
+		if f.on {
+			l = append(l, f.n)
+		}
+	}
+	if len(l) == 0 {
+		return "default"
+	}
+	return strings.Join(l, "+")
+}
+
+var knownExtKeys = []string{"x-note", "x-nested", "x-from-override", "x-unused", "x-magic"}
+
+// optsExhaustive: every single option alone, known extensions used / unused by the resources, and all together.
+func optsExhaustive() []*loadOpts {
+	return []*loadOpts{
+		{KnownExt: []string{"x-unused"}},
+		{KnownExt: []string{"x-note"}},
+		{KnownExt: []string{"x-nested", "x-magic"}},
+		{KnownExt: knownExtKeys},
+		{SkipInterpolation: true},
+		{SkipNormalization: true},
+		{SkipValidation: true},
+		{SkipConsistency: true},
+		{NoResolvePaths: true},
+		{Profiles: []string{"debug"}},
+		{Profiles: []string{"*"}},
+		{KnownExt: knownExtKeys, SkipInterpolation: true, SkipNormalization: true, SkipValidation: true, SkipConsistency: true, NoResolvePaths: true, Profiles: []string{"debug"}},
+	}
+}
+
+func randOpts(r *rand.Rand) *loadOpts {
+	o := &loadOpts{}
+	if r.Intn(2) == 0 {
+		for _, k := range knownExtKeys {
+			if r.Intn(3) == 0 {
+				o.KnownExt = append(o.KnownExt, k)
+			}
+		}
+		if len(o.KnownExt) == 0 {
+			o.KnownExt = []string{knownExtKeys[r.Intn(len(knownExtKeys))]}
+		}
+	}
+	o.SkipInterpolation = r.Intn(4) == 0
+	o.SkipNormalization = r.Intn(4) == 0
+	o.SkipValidation = r.Intn(4) == 0
+	o.SkipConsistency = r.Intn(4) == 0
+	o.NoResolvePaths = r.Intn(4) == 0
+	if r.Intn(4) == 0 {
+		o.Profiles = [][]string{{"debug"}, {"*"}, {"a", "b"}}[r.Intn(3)]
+	}
+	return o
 }
